@@ -423,8 +423,7 @@ class ElectionProfile:
             try:
                 name = next(blt)
             except StopIteration:
-                raise ElectionProfileError('bad blt item "%s" near candidate name #%d; expected quoted string' % \
-                    (name, cid))
+                raise ElectionProfileError('bad blt: unexpected end-of-file near candidate name #%d; expected quoted string' % cid)
             if not name.startswith('"'):
                 raise ElectionProfileError('bad blt item "%s" near candidate name #%d; expected quoted string' % \
                     (name, cid))
